@@ -109,6 +109,11 @@ def cmd_run(prop, tier):
     mod = importlib.import_module('harness.' + prop.lower())
     from sx import known, adapt_list
     shards = mod.shards(tier)
+    only = os.environ.get('VERIF_ONLY')          # development aid: run the shards whose name matches; never used by a registered command
+    if only:
+        import re as _re
+        shards = [sp for sp in shards if _re.search(only, sp['name'])]
+        os.environ['VERIF_EVIDENCE_SUFFIX'] = '.dev'
     # scheduling hints (measured wall time of each shard in an earlier run; only affects the order)
     cpath = os.path.join(HERE, 'costs', '%s_%s.json' % (prop, tier))
     if os.path.exists(cpath):
